@@ -222,11 +222,51 @@ def validate(scen_json, exps, tag):
     return accepted, states, viols
 
 
-def enumerate_scenario(c, scen, phases, tier, rng, doubles):
+def validate_scan(scen_json, exps, tag):
+    """LONG scenarios (hundreds of blocks): the experiments' traces against CrashScan.tla (header level: stored set, verdicts,
+    tip / total difficulty at restart, after InitLoadUnverified and at the end).  Returns (accepted, states, violations)."""
+    uni = {"ev": "Universe"}
+    head = header_events(scen_json)
+    cfg = os.path.join(V.workdir(PID), "trace_scan.cfg")
+    open(cfg, "w").write("SPECIFICATION TSpec\nPOSTCONDITION Accepted\nCHECK_DEADLOCK FALSE\n")
+    viols, accepted, states = [], 0, 0
+    for k, e in enumerate(exps):
+        path = os.path.join(V.workdir(PID), "%s_scan%d.ndjson" % (tag, k))
+        evs = head + [{kk: vv for kk, vv in x.items() if kk != "obs" or x["ev"] == "Restart"} for x in e["events"]]
+        for x in evs:
+            if x["ev"] == "Restart":
+                x["obs"] = {"tip": (x.get("obs") or {}).get("tip", 0)}
+        with open(path, "w") as f:
+            f.write(json.dumps(uni) + "\n")
+            for x in evs:
+                f.write(json.dumps(x) + "\n")
+        ok, res = V.validate_trace(PID, "Trace_CrashScan", cfg, path, tag="scan_%s_%d" % (tag, k), timeout=900, xmx="4g")
+        states += res["distinct"]
+        if ok:
+            accepted += 1
+            continue
+        out = res["out"]
+        mm = MIS_RE.search(out)
+        m = REJ_RE.search(out)
+        if not mm and not m:
+            V.log(out[-3000:])
+            raise V.ToolError("trace validation (CrashScan) of %s failed without a rejection" % tag)
+        what = mm.group(2) if mm else "not-a-behaviour"
+        at = int(mm.group(1)) if mm else int(m.group(1))
+        viols.append(("long/%s" % what,
+                      "long chain (%d blocks), crash at write %d (%s): event %d (%s) is not a behaviour of CrashScan.tla (%s)" % (
+                          len(scen_json["blocks"]), e["n"], e["phase"], at - 1, evs[at - 2]["ev"] if 0 <= at - 2 < len(evs) else "?", what),
+                      {"kind": "trace-long", "scenario": scen_json, "n": e["n"], "phase": e["phase"], "second": e["second"],
+                       "tail": [x for x in evs if x["ev"] != "Mint"][-12:], "detail": out[max(0, out.find("OBS-MISMATCH") - 20):][:1500]}))
+    return accepted, states, viols
+
+
+def enumerate_scenario(c, scen, phases, tier, rng, doubles, last_writes=None):
     sj = json.load(open(scen))
     free = crash_free(scen)
     N = free["writes"]
-    points = [(n, ph, None) for n in range(1, N + 1) for ph in phases]
+    # last_writes: a LONG scenario - only the crash points of its last database writes, judged at header level (CrashScan.tla)
+    points = [(n, ph, None) for n in range(1 if last_writes is None else max(1, N - last_writes + 1), N + 1) for ph in phases]
     # repeated crashes: a second crash inside the recovery of some first crash points
     for _ in range(doubles):
         n = rng.randint(2, N)
@@ -244,7 +284,7 @@ def enumerate_scenario(c, scen, phases, tier, rng, doubles):
                 {"kind": "restart", "scenario": sj, "n": e["n"], "phase": e["phase"], "second": e["second"], "detail": e["detail"]})
         else:
             good.append(e)
-    acc, states, viols = validate(sj, good, os.path.basename(scen).split(".")[0])
+    acc, states, viols = (validate if last_writes is None else validate_scan)(sj, good, os.path.basename(scen).split(".")[0])
     for key, text, payload in viols:
         c.violation(key, text, payload)
     # bookkeeping
@@ -348,6 +388,17 @@ def run(tier):
         V.log(out[-2000:])
         raise V.ToolError("c08 build (epochfork) failed: %s" % (s[0]["error"] if s else rc))
     scens.append((sp, ["after"], 1))
+    # directed: LONG chain - the blocks of a TLC tree (fork + invalid block) on top of 255 empty blocks, so that the blocks in flight
+    # at the crash have numbers 256.. (number-prefixed store keys are little-endian: byte order and numeric order part at 256)
+    long_scens = []
+    for k, pre in enumerate([255] if tier == "quick" else [255, 254, 511]):
+        sp = os.path.join(wd, "scen_long%d.json" % k)
+        rc, out = V.ckbv("c08", ["build", "--tree", os.path.join(wd, "tree_0.json"), "--epoch-len", 100, "--prelude", pre, "--out", sp], timeout=900)
+        s = [x["summary"] for x in lines_of(out) if "summary" in x]
+        if rc != 0 or not s or s[0]["error"]:
+            V.log(out[-2000:])
+            raise V.ToolError("c08 build (long) failed: %s" % (s[0]["error"] if s else rc))
+        long_scens.append(sp)
     # ---------------------------------------------------------------- 3. fault enumeration
     tot = {}
     sample_done = False
@@ -361,6 +412,14 @@ def run(tier):
             c.sample({"scenario": os.path.basename(sp), "crash_at_write": e[0]["n"], "phase": e[0]["phase"],
                       "events": [{k: v for k, v in x.items() if k != "obs"} for x in e[0]["events"]][:30]})
             sample_done = True
+    ltot = {}
+    for sp in long_scens:
+        st, good = enumerate_scenario(c, sp, ["before", "after"], tier, rng, 0, last_writes=8)
+        for k, v in st.items():
+            ltot[k] = ltot.get(k, 0) + v
+    c.set("long_chain_scenarios", ltot)
+    if not ltot.get("initload_had_work"):
+        raise V.ToolError("vacuous: no long-chain crash left a stored-but-unverified block above height 255 (%s)" % ltot)
     c.set("totals", tot)
     miss = [k for k in ("around_reorg_commit", "initload_had_work", "invalid_in_flight", "double_crashes", "reorgs_in_history",
                         "refused_in_history") if not tot.get(k)]
